@@ -8,12 +8,19 @@ import json
 import logging
 
 from harness import vloop
-from harness.c01 import PROTO_CLASS
-from harness.c01_fake import make_session, settle
+from harness.c02_util import PROTO_CLASS, make_session, settle
 from harness.c02 import (_prepare, batch_oracle, classify_member, decode_entry, impl_text,
                          model_line, normalise_model, random_case, result_for, single_cases,
                          single_oracle)
 from tools.facts.common import fresh_import
+
+
+def take(transport):
+    """[(decoded JSON message, length in bytes without the frame's newline)] written since the
+    last call"""
+    data = b''.join(transport.out)
+    transport.out.clear()
+    return [(json.loads(m), len(m)) for m in data.split(b'\n') if m]
 
 
 async def run_scenario(mods, case):
@@ -21,6 +28,9 @@ async def run_scenario(mods, case):
     proto = getattr(jr, PROTO_CLASS[case['proto']])
     gates = {}
     errs = set(case.get('errs', ())) | ({0} if case.get('err') else set())
+    # notifications whose handler fails (RPCError / another exception by member parity): still
+    # nothing may be emitted for them
+    nerrs = set(case.get('nerrs', ())) | ({0} if case.get('err') else set())
     seen_notifs = []
 
     class Server(session_mod.RPCSession):
@@ -33,6 +43,8 @@ async def run_scenario(mods, case):
             m = request.args[0]
             if isinstance(request, jr.Notification):
                 seen_notifs.append(m)
+                if m in nerrs:
+                    raise jr.RPCError(77, 'notification failed') if m % 2 == 0 else ValueError('boom')
                 return None
             await gates.setdefault(m, asyncio.Event()).wait()
             result, _ = result_for(jr, m, m in errs)
@@ -46,14 +58,15 @@ async def run_scenario(mods, case):
         rec = await _single(jr, p, transport, session, case, gates, seen_notifs)
         logging.disable(logging.NOTSET)
         return rec
-    rec = {'raised': None, 'calls': [], 'lens': [], 'exc': None, 'items': None}
+    rec = {'raised': None, 'calls': [], 'lens': [], 'exc': None, 'items': None, 'rawlens': [],
+           'extra': 0}
     p.data_received(json.dumps(case['members']).encode() + b'\n')
     await settle(10)
-    first = transport.take_messages()
+    first = take(transport)
     if first:
-        rec['raised'] = [decode_entry(x) for x in first[0]] if isinstance(first[0], list) else 'no-message'
-        if len(first) > 1:
-            rec['exc'] = 'ExtraMessages'
+        rec['raised'] = [decode_entry(x) for x in first[0][0]] if isinstance(first[0][0], list) \
+            else [('?', 'single-message')]
+        rec['extra'] += len(first) - 1
     inforce = getattr(jr, PROTO_CLASS[case.get('inforce', case['proto'])])
     kinds = [classify_member(case.get('inforce', case['proto']), m) for m in case['members']]
     for m in case['order']:
@@ -61,15 +74,13 @@ async def run_scenario(mods, case):
         rec['lens'].append(len(inforce.response_message(result, kinds[m][1])))
         gates.setdefault(m, asyncio.Event()).set()
         await settle(10)
-        out = transport.take_messages()
-        if len(out) > 1:
-            rec['exc'] = 'ExtraMessages'
-        rec['calls'].append([decode_entry(x) for x in out[0]] if out and isinstance(out[0], list)
+        out = take(transport)
+        rec['extra'] += max(0, len(out) - 1)
+        rec['calls'].append([decode_entry(x) for x in out[0][0]] if out and isinstance(out[0][0], list)
                             else ([('?', 'single-message')] if out else None))
+        rec['rawlens'].append(out[0][1] if out else None)
     await settle(6)
-    late = transport.take_messages()
-    if late:
-        rec['exc'] = 'LateMessages'
+    rec['extra'] += len(take(transport))
     nnotif = sum(1 for k in kinds if k[0] == 'notif')
     rec['notifs_handled'] = len(seen_notifs)
     rec['notifs_expected'] = nnotif
@@ -80,29 +91,28 @@ async def run_scenario(mods, case):
 
 async def _single(jr, p, transport, session, case, gates, seen_notifs):
     """one request / notification through the serving session: what is written"""
-    rec = {'exc': None, 'reply': None, 'len': 0, 'items': None, 'raised': None}
+    rec = {'exc': None, 'reply': None, 'len': 0, 'items': None, 'raised': None, 'extra': 0}
     p.data_received(json.dumps(case['single']).encode() + b'\n')
     await settle(10)
-    first = transport.take_messages()
+    first = [m for m, _n in take(transport)]
     kind = classify_member(case.get('inforce', case['proto']), case['single'])
     if first:
         rec['raised'] = decode_entry(first[0])
+        rec['extra'] += len(first) - 1
     if kind[0] == 'req':
         inforce = getattr(jr, PROTO_CLASS[case.get('inforce', case['proto'])])
         result, _ = result_for(jr, 0, case.get('err'))
         rec['len'] = len(inforce.response_message(result, kind[1]))
         gates.setdefault(0, asyncio.Event()).set()
         await settle(10)
-        out = transport.take_messages()
-        if len(out) > 1:
-            rec['exc'] = 'ExtraMessages'
+        out = [m for m, _n in take(transport)]
+        rec['extra'] += max(0, len(out) - 1)
         rec['items'] = ['r']
         rec['reply'] = decode_entry(out[0]) if out else None
     elif kind[0] == 'notif':
         rec['items'] = ['n'] if seen_notifs else ['?']
     await settle(4)
-    if transport.take_messages():
-        rec['exc'] = 'LateMessages'
+    rec['extra'] += len(take(transport))
     await session.close()
     return rec
 
@@ -151,8 +161,8 @@ def _evaluate(ctx, cases, res):
 
 def run(ctx, res):
     jr = fresh_import(ctx.repo, 'aiorpcx.jsonrpc')
-    from harness.c02 import unlisted_failure
-    n = 120 if unlisted_failure(ctx, res) else (3000 if ctx.tier == 'thorough' else 400 if ctx.deep else 120)
+    from harness.c02 import is_deep, unlisted_failure
+    n = 120 if unlisted_failure(ctx, res) else (3000 if ctx.tier == 'thorough' else 400 if is_deep(ctx) else 120)
     cases = [random_case(ctx.rng, jr) for _ in range(n)]
     # fixed ones: F8, all invalid, notifications only, oversize
     v2 = lambda m, **kw: dict({'jsonrpc': '2.0', 'method': 'm', 'params': [m]}, **kw)
